@@ -104,3 +104,35 @@ Proof.
   apply edges_exact in H as (q & Hq & Hn & Hx). exists q. split; [exact Hq|]. right. split; [|exact Hx].
   intros E. rewrite E in Hn. destruct Hn.
 Qed.
+
+(* ---- only ENDOGENOUS symbols contribute (fix 9d4c57e) ---- *)
+Lemma equations_of_app a b : equations_of (a ++ b) = (equations_of a ++ equations_of b)%list.
+Proof.
+  induction a as [|s a IH]; [reflexivity|]. cbn [app equations_of]. destruct (sequation s) as [e|]; [|exact IH].
+  destruct (stype s); try exact IH. cbn [app]. rewrite IH. reflexivity.
+Qed.
+Lemma equations_of_non_endogenous s : stype s <> TEndogenous -> equations_of [s] = [].
+Proof. intros H. cbn [equations_of]. destruct (sequation s); [|reflexivity]. destruct (stype s); try reflexivity. congruence. Qed.
+
+(* a symbol of any other type — a verbatim block with its code in the `equation` field, with or without "=", a parameter, a
+   function, … — contributes no node, no edge and no failure: the graph is the graph of the list without it *)
+Theorem non_endogenous_ignored a s b :
+  stype s <> TEndogenous -> symbols_to_graph_M (a ++ s :: b) = symbols_to_graph_M (a ++ b).
+Proof.
+  intros H. unfold symbols_to_graph_M. change (s :: b) with ([s] ++ b)%list.
+  rewrite !equations_of_app, (equations_of_non_endogenous s H). reflexivity.
+Qed.
+
+Definition endogenous_sym (s : symbol) : bool := type_eqb (stype s) TEndogenous.
+Theorem only_endogenous_matter symbols : symbols_to_graph_M (filter endogenous_sym symbols) = symbols_to_graph_M symbols.
+Proof.
+  unfold symbols_to_graph_M. f_equal. induction symbols as [|s r IH]; [reflexivity|]. cbn [filter equations_of]. unfold endogenous_sym at 1.
+  destruct (stype s) eqn:E; cbn [type_eqb]; try (destruct (sequation s); exact IH).
+  cbn [equations_of]. rewrite E. destruct (sequation s); rewrite IH; reflexivity.
+Qed.
+
+(* hence graph_total for symbol lists with verbatim blocks and any other non-endogenous symbols in between *)
+Theorem graph_total_endogenous symbols qs :
+  equations_of (filter endogenous_sym symbols) = map neq_text qs -> forallb neq_wf qs = true ->
+  symbols_to_graph_M symbols = Ret (graph_of qs).
+Proof. intros He Hw. rewrite <- only_endogenous_matter. apply (graph_total _ qs He Hw). Qed.
